@@ -61,6 +61,8 @@ static RUN_ID: AtomicU32 = AtomicU32::new(1);
 /// watchdog expiries so far in this process: after a few of them the remaining waits are cut short, so that a
 /// run against a broken implementation (every other case hanging) still ends in minutes
 static HANGS: AtomicUsize = AtomicUsize::new(0);
+/// ... those among them that expired while det cases were executed
+static EXEC_HANGS: AtomicUsize = AtomicUsize::new(0);
 
 /// replay of a recorded case (`--replay`, used by the shrinker of ./check dozens of times on a failing input):
 /// a case that resolves does so within milliseconds, so shorter bounded waits decide just as well
@@ -645,6 +647,7 @@ impl Det {
             Ok(Err(_)) => Seen::Cancelled,
             Err(_) => {
                 HANGS.fetch_add(1, Ordering::Relaxed);
+                EXEC_HANGS.fetch_add(1, Ordering::Relaxed);
                 Seen::Hang
             }
         };
@@ -693,6 +696,7 @@ impl Det {
         let out = match res {
             Err(_) => {
                 HANGS.fetch_add(1, Ordering::Relaxed);
+                EXEC_HANGS.fetch_add(1, Ordering::Relaxed);
                 self.ctx.stop.store(true, Ordering::SeqCst);
                 ex.fail("C18:join-hang", format!("join did not return within {jw:?}"));
                 "hang".to_string()
@@ -800,8 +804,9 @@ impl Det {
 
 fn exec_det(rt: &Runtime, case: &Case) -> Exec {
     let mut ex = Exec::new();
-    if HANGS.load(Ordering::Relaxed) >= 8 && !REPLAY.load(Ordering::Relaxed) {
-        // eight watchdogs have expired: the run has failed; hung worker threads may still be spinning. The
+    let is_hist = case.lines.iter().all(|l| l.starts_with("hist "));
+    if EXEC_HANGS.load(Ordering::Relaxed) >= 8 && !REPLAY.load(Ordering::Relaxed) && !is_hist {
+        // eight watchdogs have expired in det cases (each reported by a monitor): the run has failed; hung worker threads may still be spinning. The
         // remaining cases are not executed (their lines read `skipped`, which no model output equals).
         ex.out = case.lines.iter().map(|_| "skipped".to_string()).collect();
         ex.tag("skipped-after-hangs");
